@@ -4,6 +4,6 @@ set -e
 N="$1"; W=/tmp/b/$N
 mkdir -p "$W"
 git -C /repo worktree add -q -b "b-$N" "$W/repo" HEAD
-rsync -a --exclude .git --exclude replays /verif/ "$W/verif/"
+rsync -a --exclude .git --exclude replays --exclude ".build/run-*" /verif/ "$W/verif/" || [ $? = 24 ]
 mkdir -p "$W/verif/replays"
 echo "$W"
